@@ -32,7 +32,7 @@ def mem_available_mb():
     return 8192
 
 
-def tlc(module, cfg_text, env=None, workers=8, heap_mb=2048, timeout=1800, extra=(), deadlock=False, simulate=None):
+def tlc(module, cfg_text, env=None, workers=8, heap_mb=2048, timeout=1800, extra=(), deadlock=False, simulate=None, mc_text=None):
     """
     Run TLC on spec/<module>.tla with the given cfg text.  Returns dict(out, states, distinct,
     rc, wall).  The metadir and the cfg live in a fresh temp dir outside /repo and /verif.
@@ -51,20 +51,25 @@ def tlc(module, cfg_text, env=None, workers=8, heap_mb=2048, timeout=1800, extra
         cfg = os.path.join(tmp, module + '.cfg')
         with open(cfg, 'w') as f:
             f.write(cfg_text)
-        cmd = ['java', '-XX:+UseParallelGC', '-Xmx%dm' % heap_mb, '-Xss16m', '-cp', JAR, 'tlc2.TLC',
+        target = os.path.join(SPEC, module + '.tla')
+        if mc_text is not None:
+            target = os.path.join(tmp, module + '.tla')
+            with open(target, 'w') as f:
+                f.write(mc_text)
+        cmd = ['java', '-XX:+UseParallelGC', '-Xmx%dm' % heap_mb, '-Xss16m', '-DTLA-Library=' + SPEC, '-cp', JAR, 'tlc2.TLC',
                '-workers', str(workers), '-fpmem', '0.05', '-metadir', os.path.join(tmp, 'meta'),
                '-noGenerateSpecTE', '-config', cfg]
         if not deadlock:
             cmd += ['-deadlock']
         if simulate:
             cmd += ['-simulate', simulate]
-        cmd += list(extra) + [os.path.join(SPEC, module + '.tla')]
+        cmd += list(extra) + [target]
         e = dict(os.environ)
         e.pop('JAVA_TOOL_OPTIONS', None)
         if env:
             e.update(env)
         st = time.time()
-        p = subprocess.Popen(cmd, stdout=subprocess.PIPE, stderr=subprocess.STDOUT, env=e, cwd=SPEC,
+        p = subprocess.Popen(cmd, stdout=subprocess.PIPE, stderr=subprocess.STDOUT, env=e, cwd=(tmp if mc_text is not None else SPEC),
                              start_new_session=True, text=True)
         try:
             out, _ = p.communicate(timeout=timeout)
